@@ -133,7 +133,7 @@ def main(argv):
     ap.add_argument('--per-family', type=int, default=0)
     args = ap.parse_args(argv)
     names = [p for p in args.props.split(',') if p] or prop_names()
-    per_family = args.per_family or (40 if args.reduced else 400)
+    per_family = args.per_family or (12 if args.reduced else 300)
 
     if args.dump:
         out = {}
